@@ -45,6 +45,7 @@ pub struct Guest {
     pub name: String,
     /// the handlers of vectors 36 / 37 rewrite their own vector table entry (pairs H, H')
     pub rewriting: bool,
+    pub trapping: bool,
 }
 
 /// upper byte of the stack pointer the guests start with (the second half of the all-vectors units sets it)
@@ -61,7 +62,9 @@ pub fn build_guest(isa: &Isa, main_kind: usize, long_handlers: bool) -> Guest {
     // ---- main (uses ER0-ER3 only; ER4-ER6 belong to the handlers)
     c.extend(asm(isa, "MOV.L #xx:32,ERd", f(0, 0, 0x0001_0203)));
     c.extend(asm(isa, "MOV.L #xx:32,ERd", f(1, 0, 0x1020_3040)));
-    let rewriting = main_kind >= 3;
+    let rewriting = (3..6).contains(&main_kind);
+    // guest 6: the handler of vector 36 executes TRAPA #3 (a trap inside a handler, while other requests may be waiting)
+    let trapping = main_kind == 6;
     match main_kind % 3 {
         0 => {
             c.extend(asm(isa, "ADD.L ERs,ERd", f(1, 0, 0)));
@@ -111,6 +114,9 @@ pub fn build_guest(isa: &Isa, main_kind: usize, long_handlers: bool) -> Guest {
         c.extend(asm(isa, "MOV.B #xx:8,Rd", f(12, 0, v as u32))); // R4L = v
         c.extend(asm(isa, "MOV.B Rs,@ERd", Fields { rs: 12, ra: 6, ..Default::default() }));
         c.extend(asm(isa, "ADDS #1,ERd", f(6, 0, 0)));
+        if trapping && v == 36 {
+            c.extend(asm(isa, "TRAPA #x:2", Fields { trap: 3, ..Default::default() }));
+        }
         if long_handlers {
             for _ in 0..5 {
                 c.extend(asm(isa, "ADDS #1,ERd", f(5, 0, 0)));
@@ -138,6 +144,14 @@ pub fn build_guest(isa: &Isa, main_kind: usize, long_handlers: bool) -> Guest {
     };
     for v in 1..=63u8 {
         handlers.push((v, CODE + c.len() as u32));
+        if trapping && v == 11 {
+            // the trap's own handler: counts in a counter of its own and returns (it is never requested as an interrupt)
+            c.extend(asm(isa, "MOV.B @aa:24,Rd", Fields { rd: 12, data: CNT + 0x70, ..Default::default() }));
+            c.extend(asm(isa, "INC.B Rd", f(12, 0, 0)));
+            c.extend(asm(isa, "MOV.B Rs,@aa:24", Fields { rs: 12, data: CNT + 0x70, ..Default::default() }));
+            c.extend(asm(isa, "RTE", Fields::default()));
+            continue;
+        }
         emit_handler(&mut c, v, false, &mut alt_handler_fixups);
         if rewriting && (v == 36 || v == 37) {
             alt_addr.insert(v, CODE + c.len() as u32);
@@ -148,7 +162,7 @@ pub fn build_guest(isa: &Isa, main_kind: usize, long_handlers: bool) -> Guest {
         let target = if to_alt { alt_addr[&v] } else { handlers.iter().find(|h| h.0 == v).unwrap().1 };
         c[at..at + 4].copy_from_slice(&target.to_be_bytes());
     }
-    Guest { code: c, exit_addr, handlers, name: format!("main{}-{}", main_kind, if long_handlers { "long" } else { "short" }), rewriting }
+    Guest { code: c, exit_addr, handlers, name: format!("main{}-{}", main_kind, if long_handlers { "long" } else { "short" }), rewriting, trapping }
 }
 
 pub fn load_guest(cpu: &mut Cpu, g: &Guest) {
@@ -296,6 +310,12 @@ pub fn judge(g: &Guest, schedule_req: &[(usize, u8)], o: &RunObs, base: &RunObs)
             return Some(format!("vector {}: the handlers rewrite the vector table entry after every entry, so of {} entries {} must go through the second handler of the pair; {} did (an entry did not use the vector as it stood in memory)", v, want, want / 2, o.counters[0x40 + v as usize]));
         }
     }
+    if g.trapping {
+        let want = schedule.iter().filter(|x| x.1 == 36).count() as u8;
+        if o.counters[0x70] != want {
+            return Some(format!("the handler of vector 36 executes TRAPA #3 once per entry: {} entries, the trap handler ran {} times (log {:02x?})", want, o.counters[0x70], o.log));
+        }
+    }
     // (d) the interrupted program computes what it computes without interrupts
     if o.er[..4] != base.er[..4] || o.er[7] != base.er[7] || o.data != base.data || o.ccr != base.ccr || o.pc != base.pc {
         return Some(format!(
@@ -347,7 +367,7 @@ fn nth_multiset(mut idx: u64, k: usize, n: u64) -> Vec<u64> {
 fn c10_units(tier: Tier) -> Vec<Unit> {
     let mut units = Vec::new();
     let kmax = if tier == Tier::Thorough { 4 } else { 3 };
-    for main_kind in [0usize, 1, 2, 4] {
+    for main_kind in [0usize, 1, 2, 4, 6] {
         for long in [false, true] {
             for k in 0..=kmax {
                 if tier == Tier::Thorough && k == 4 && long {
